@@ -10,13 +10,16 @@ from checklib import codec
 from gens import docs, sweep, harness
 
 MANIFEST = dict(
-    technique="kernel-checked exhaustive evaluation (vm_compute) of the flag-transparency check on the schema-generated slot product through the Coq model + four-flag extracted-model correspondence",
-    text=("Coq (Props/C13.v): for every document of the schema-generated slot product (about 2500 documents, regenerated from the schemas on every run) the model's loads with include_position and/or include_comments, "
+    technique="Coq universal theorem (logical relation over the transformer model: include_position only adds __position__ entries, for every text) + kernel-checked exhaustive evaluation (vm_compute) of the four-flag check on the schema-generated slot product + four-flag extracted-model correspondence",
+    text=("Coq (Props/C13.v): [universal, Proofs/C13U.v] for EVERY text and either comment mode, when the model's loads with include_position and the one without both succeed, the results are equal after removing every __position__ entry at every depth "
+          "(a relation preserved by each of the 48 transformer callbacks, the comments transformer and the final conversion); the one-sided form (plain = positioned with the entries removed) holds when the plain result has no key spelled __position__ and is REFUTED otherwise "
+          "(a METADATA entry with that key is overwritten: known finding, same on the real loads); acceptance is aligned on->off for every text and off->on under a tree-shape guard (PARTIAL: no grammar-conformance theorem for the LR driver's output). "
+          "[finite] for every document of the schema-generated slot product (about 2500 documents, regenerated from the schemas on every run) the model's loads under all three non-plain flag combinations, "
           "after removing the hidden __position__/__comments__ keys at every depth, equals the plain load - evaluated by the kernel through lexer, LR driver, tree builder with propagate_positions, comment assignment, "
-          "CommentsTransformer and MapfileTransformer. PARTIAL: the universal statement over all trees (an induction relating the two transformer drivers) is not proved; the comments path is a genuinely different recursion "
+          "CommentsTransformer and MapfileTransformer. PARTIAL: content transparency of include_comments for all texts is not a theorem; the comments path is a genuinely different recursion "
           "and is tied to the code by running the extracted model and the real loads under all four flag combinations on the corpus and on generated documents with random # and /* */ comments. "
-          "The hunter states the property against the real API through loads, open and load, and checks the printer clauses."),
-    design_ref="DESIGN.md 7/C13",
+          "The hunter states the property against the real API through loads, open and load, checks the printer clauses, and probes entries whose key is spelled like a bookkeeping key."),
+    design_ref="DESIGN.md 7/C13, 11.2",
     note="C13: Lark's propagate_positions and Transformer_InPlace traversal order are modelled.")
 
 COMPONENTS = ["parser"]
@@ -140,6 +143,31 @@ def run(ctx):
                     drop_comments(d2 if isinstance(d2, (dict, list)) else d2)
                     if dumps(d2, i) != plain_print:
                         ctx.violation("print-differs-beyond-comments", "with the comment entries removed, the print differs from the plain print", {"text": t, "flags": [ip, ic]})
+        # ---- entries of key-value blocks whose key is spelled like a bookkeeping key (found by the
+        # universal proof: the one-sided erasure statement is false of the model exactly there)
+        for key in ("__position__", "__comments__"):
+            for block in ("METADATA", "VALIDATION", "CONNECTIONOPTIONS"):
+                host = "LAYER" if block == "CONNECTIONOPTIONS" else "MAP"
+                t = '%s %s "%s" "x" "a" "b" END END' % (host, block, key)
+                ctx.note_case(t, nontrivial=True)
+                if ctx.model_ok:
+                    mo = harness.model_loads([(t, ip, ic) for ip, ic in flags])
+                    for (ip, ic), m in zip(flags, mo):
+                        a = harness.impl_loads(t, ip, ic)
+                        if not (harness.same_canon(a, m) or (isinstance(a, tuple) and isinstance(m, tuple) and a[:1] == ("exn",) and m[:1] == ("exn",) and a[1] == m[1])):
+                            ctx.violation("correspondence:O-dict-flags", "model and implementation disagree on a reserved-key document under include_position=%s include_comments=%s" % (ip, ic),
+                                          {"text": t, "flags": [ip, ic], "impl": repr(a)[:800], "model": repr(m)[:800]}, no_input=True)
+                plain = sweep.fast_loads(t, False, False)
+                for ip, ic in flags[1:]:
+                    try:
+                        d = sweep.fast_loads(t, ip, ic)
+                    except Exception as ex:
+                        ctx.violation("reserved-key:%s:raises" % key, "a %s entry whose key is %s loads plainly but raises %s with include_position=%s include_comments=%s"
+                                      % (block, key, type(ex).__name__, ip, ic), {"text": t, "flags": [ip, ic]})
+                        continue
+                    if d[block.lower()].get(key) != plain[block.lower()][key] and (key == "__position__") == ip:
+                        ctx.violation("reserved-key:%s:overwritten" % key, "the user's %s entry %s \"x\" is overwritten by the bookkeeping record with include_position=%s include_comments=%s"
+                                      % (block, key, ip, ic), {"text": t, "flags": [ip, ic]})
     finally:
         import shutil
         shutil.rmtree(tmp, ignore_errors=True)
